@@ -211,6 +211,10 @@ func solveAll(obls []*Obligation, outDir string, timeout time.Duration, thorough
 		f := filepath.Join(outDir, fmt.Sprintf("%04d_%s.smt2", i, safeFile(o.Name)))
 		footer := []string{"(check-sat)"}
 		files[i] = f
+		if o.scanFail {
+			os.WriteFile(f, []byte("; "+o.Note+"\n; "+o.Pos.String()+"\n"), 0644)
+			continue
+		}
 		if len(o.Splits) > 0 && o.Kind != "cover" && len(o.Splits) <= 6 {
 			for m := 0; m < 1<<len(o.Splits); m++ {
 				cf := filepath.Join(outDir, fmt.Sprintf("%04d_%s.case%d.smt2", i, safeFile(o.Name), m))
@@ -240,6 +244,10 @@ func solveAll(obls []*Obligation, outDir string, timeout time.Duration, thorough
 			sem <- struct{}{}
 			defer func() { <-sem }()
 			o := obls[i]
+			if o.scanFail {
+				res[i] = &Result{O: o, File: files[i], Status: "scan-failed", Solver: "ssa-scan", Output: o.Note}
+				return
+			}
 			if len(cases[i]) > 1 {
 				// every case must be discharged; the first failing case is reported
 				r := &Result{O: o, File: files[i], Status: "unsat"}
